@@ -1,34 +1,67 @@
 ----------------------------- MODULE LimitsSessPL -----------------------------
 (* Design model of the request pipeline towards one peer (internal/piecedownloader + torrent_messagehandler):     *)
-(* RequestBlocks(limit) after unchoke / a received block / a new piece; choke drops pending requests unless the   *)
-(* peer speaks the fast extension (then they stay until rejected).                                                *)
+(* RequestBlocks(limit) after unchoke / a received block; choke drops pending requests unless the peer speaks the *)
+(* fast extension (then they stay until the peer rejects them).                                                   *)
+(*                                                                                                                 *)
+(* The obligation is stated ON THE WIRE: `wire[b]` = request messages for block b that the peer has received and  *)
+(* neither served nor rejected (a BAG: rain's `pending` is a set and cannot see a block that is requested twice). *)
+(* `remaining` is a sequence, as in the code (a block may be queued twice).                                       *)
+(*   STRICT  = FALSE : mutation  >= -> >  in RequestBlocks                                                        *)
+(*   REQUEUE = TRUE  : mutation "a choke of a fast-extension peer also puts the pending blocks back": the peer     *)
+(*                     rejects them as well, so each is queued twice                                              *)
+(*   HOSTILE = TRUE  : the peer may send (at most two) reject messages for requests that are NOT open             *)
+(*   GUARD   = TRUE  : Rejected ignores a reject for a block that is not pending (repair of the HOSTILE case);     *)
+(*                     FALSE = the code as it is                                                                  *)
 EXTENDS LimitsSess
-CONSTANTS NB, REQQ, DEFOUT, MAXOUT, FAST, STRICT     \* STRICT = FALSE: mutation >= -> > in RequestBlocks
-VARIABLES pending, remaining, done, choked
-vars == <<pending, remaining, done, choked>>
+CONSTANTS NB, REQQ, DEFOUT, MAXOUT, FAST, STRICT, REQUEUE, HOSTILE, GUARD
+VARIABLES pending, remaining, done, choked, wire, hr
+vars == <<pending, remaining, done, choked, wire, hr>>
 L == PipelineLimit(REQQ, DEFOUT, MAXOUT)
+Q == IF STRICT THEN L ELSE L + 1
 Blocks == 1 .. NB
-Init == pending = {} /\ remaining = Blocks /\ done = {} /\ choked = TRUE
-\* RequestBlocks: as many remaining blocks as fit under the limit
-Fill(p, r) ==
-    LET room == IF STRICT THEN L - Cardinality(p) ELSE L + 1 - Cardinality(p)
-        k == IF room < 0 THEN 0 ELSE Min2(room, Cardinality(r))
-    IN {S \in SUBSET r : Cardinality(S) = k}
+Zero == [b \in Blocks |-> 0]
+Total(w) == LET S[i \in 0 .. NB] == IF i = 0 THEN 0 ELSE S[i - 1] + w[i] IN S[NB]
+\* all orders in which a set can be walked (Go map iteration / the peer's choice)
+Orders(S) == {o \in [1 .. Cardinality(S) -> S] : \A i, j \in 1 .. Cardinality(S) : i # j => o[i] # o[j]}
+
+Init == pending = {} /\ remaining = [i \in 1 .. NB |-> i] /\ done = {} /\ choked = TRUE /\ wire = Zero /\ hr = 0
+
+\* RequestBlocks(queueLength): walk `remaining` while fewer than queueLength blocks are pending; a block that is stored
+\* already is put into `pending` WITHOUT a request message (the code as it is)
+RECURSIVE RB(_, _, _, _)
+RB(p, r, w, d) ==
+    IF r = <<>> \/ Cardinality(p) >= Q THEN <<p, r, w>>
+    ELSE LET b == Head(r) IN RB(p \cup {b}, Tail(r), IF b \in d THEN w ELSE [w EXCEPT ![b] = @ + 1], d)
+
 Unchoke == /\ choked /\ choked' = FALSE
-           /\ \E S \in Fill(pending, remaining) : pending' = pending \cup S /\ remaining' = remaining \ S
-           /\ UNCHANGED done
+           /\ LET x == RB(pending, remaining, wire, done) IN pending' = x[1] /\ remaining' = x[2] /\ wire' = x[3]
+           /\ UNCHANGED <<done, hr>>
 Choke == /\ ~choked /\ choked' = TRUE
-         /\ IF FAST THEN UNCHANGED <<pending, remaining>> ELSE pending' = {} /\ remaining' = remaining \cup pending
-         /\ UNCHANGED done
-Block(b) == /\ b \in pending /\ done' = done \cup {b}
-            /\ LET p1 == pending \ {b} IN
-               IF choked THEN pending' = p1 /\ UNCHANGED remaining
-               ELSE \E S \in Fill(p1, remaining) : pending' = p1 \cup S /\ remaining' = remaining \ S
-            /\ UNCHANGED choked
-Reject(b) == /\ FAST /\ b \in pending /\ pending' = pending \ {b} /\ remaining' = remaining \cup {b}
+         /\ IF ~FAST THEN \E o \in Orders(pending) : remaining' = remaining \o o /\ pending' = {} /\ wire' = Zero   \* the peer drops its queue
+            ELSE IF REQUEUE THEN \E o \in Orders(pending) : remaining' = remaining \o o /\ pending' = {} /\ UNCHANGED wire
+            ELSE UNCHANGED <<pending, remaining, wire>>
+         /\ UNCHANGED <<done, hr>>
+\* the peer serves an open request
+Block(b) == /\ wire[b] > 0
+            /\ LET w1 == [wire EXCEPT ![b] = @ - 1] IN
+               IF b \in done THEN wire' = w1 /\ UNCHANGED <<pending, remaining, done>>          \* duplicate block: dropped
+               ELSE /\ done' = done \cup {b}
+                    /\ IF choked THEN pending' = pending \ {b} /\ wire' = w1 /\ UNCHANGED remaining
+                       ELSE LET x == RB(pending \ {b}, remaining, w1, done \cup {b})
+                            IN pending' = x[1] /\ remaining' = x[2] /\ wire' = x[3]
+            /\ UNCHANGED <<choked, hr>>
+\* the peer rejects an open request (or, HOSTILE, one that is not open)
+Reject(b) == /\ FAST
+             /\ \/ wire[b] > 0 /\ wire' = [wire EXCEPT ![b] = @ - 1] /\ UNCHANGED hr
+                \/ HOSTILE /\ wire[b] = 0 /\ hr < 2 /\ hr' = hr + 1 /\ UNCHANGED wire
+             /\ IF GUARD /\ b \notin pending THEN UNCHANGED <<pending, remaining>>
+                ELSE pending' = pending \ {b} /\ remaining' = Append(remaining, b)
              /\ UNCHANGED <<done, choked>>
 Next == Unchoke \/ Choke \/ \E b \in Blocks : Block(b) \/ Reject(b)
 Spec == Init /\ [][Next]_vars
-PipelineBound == Cardinality(pending) <= L             \* @obligation C17.pipeline
-Partition == pending \cap remaining = {} /\ pending \cap done = {}
+Small == Len(remaining) <= 2 * NB + 2
+PipelineBound == Cardinality(pending) <= L
+WireBound == Total(wire) <= L                          \* @obligation C17.pipeline
+\* honest peer, code as it is: no block is open twice
+NoDoubleOpen == \A b \in Blocks : wire[b] <= 1
 =============================================================================
